@@ -119,6 +119,15 @@ func notePad(p int) {
 // it is checked by the caller through unpack.
 func judgeWire(wire []byte, key crypto.AuthKey, dec crypto.Cipher, salt, session, msgID int64, seq int32,
 	dataLen int, checkData func(got []byte) (string, bool)) kit.Result {
+	return judgeWireWith(wire, func(w []byte) (*crypto.EncryptedMessageData, error) {
+		return dec.DecryptFromBuffer(key, &bin.Buffer{Buf: append([]byte(nil), w...)})
+	}, salt, session, msgID, seq, dataLen, checkData)
+}
+
+// judgeWireWith is judgeWire with the receiving side's decode+decrypt step given by the caller (so that the
+// receiver may keep and re-use its own objects between messages).
+func judgeWireWith(wire []byte, decrypt func(wire []byte) (*crypto.EncryptedMessageData, error), salt, session, msgID int64, seq int32,
+	dataLen int, checkData func(got []byte) (string, bool)) kit.Result {
 	if len(wire) < 24 {
 		return kit.Bad("short-output", "encrypted message is %d bytes (< 24)", len(wire))
 	}
@@ -135,7 +144,7 @@ func judgeWire(wire []byte, key crypto.AuthKey, dec crypto.Cipher, salt, session
 			return kit.Bad("padding>1024", "padding %d bytes (body %d, data %d)", pad, len(body), dataLen)
 		}
 	}
-	got, err := dec.DecryptFromBuffer(key, &bin.Buffer{Buf: append([]byte(nil), wire...)})
+	got, err := decrypt(wire)
 	if err != nil {
 		return kit.Bad("decrypt-error", "peer rejects the message: %v", err)
 	}
@@ -277,6 +286,7 @@ func main() {
 	kit.Main("C04", "exploration", func(c *kit.Ctx) {
 		rt := kit.NewFamily(c, "cipher-roundtrip", evalRT)
 		cn := kit.NewFamily(c, "conn-newEncryptedMessage", evalConn)
+		sq := kit.NewFamily(c, "conversation", evalSeq)
 		if c.Replaying() {
 			return
 		}
@@ -291,6 +301,11 @@ func main() {
 			"conn-newEncryptedMessage: the three paths of mtproto.Conn.newEncryptedMessage (threshold<0, payload<=threshold, payload>threshold -> gzip) with " +
 			"thresholds {-1,0(=1024),4,64,2^20} x lengths 0..2048 step 4 (thorough ..8192 and {65536,1MiB}) x payload {zero,stream} x nibbles {0,15} x 2 keys, plus the header-value cube on each path; " +
 			"decrypted by a server-side cipher, gzip_packed opened by an independent TL/gzip reader. " +
+			"conversation: k messages between ONE sender and ONE receiver that keep their objects between messages - sender: one Cipher and one re-used output bin.Buffer (payload bytes given / bin.Encoder), " +
+			"or one mtproto.Conn (pooled payload buffer, thresholds {-1,0,64}); receiver: {DecryptFromBuffer on a fresh buffer, DecryptFromBuffer on one ResetN'd buffer, one re-used EncryptedMessage with Decode+Decrypt, " +
+			"one re-used EncryptedMessage with DecodeWithoutCopy+Decrypt}, and one re-used EncryptedMessageData that Decodes every decrypted plaintext; every message is judged when received. " +
+			"All length sequences: quick k=2,3 over payload lengths {0,4,16,64,256,1024,2048} x nibbles {0,15} (every shrink/grow/equal order of body sizes), both directions; two auth keys served alternately by the same receiver objects (k=2,3); " +
+			"Conn senders k=2 (nibbles {0,15}) and k=3 over lengths {0,4,64,68,1024,1028,4096} x compressible/incompressible payload. Thorough: 14 lengths to 65536 x nibbles {0,1,15} for k=2, x{0,15} for k=3, k=4 over the quick alphabet; Conn k=4. " +
 			"Oracle: body%%16==0, 12<=padding<=1024 (from the wire length and as seen by the receiver), equal salt/session/msg_id/seq_no/length and payload. " +
 			"distinct = distinct witnesses.")
 		c.Assume("the 6 structured keys stand for 'all 2048-bit keys' (the code has no branch on key bytes); payload lengths are multiples of 4 as in the quantifier; " +
@@ -423,6 +438,13 @@ func main() {
 		if done < len(cs) {
 			c.NotExhaustive("time budget: conn-newEncryptedMessage stopped after %d of %d cases", done, len(cs))
 		}
+
+		qs := seqCases(c.Thorough())
+		done = runAll(c, len(qs), func(i int) { sq.Eval(qs[i]) })
+		if done < len(qs) {
+			c.NotExhaustive("time budget: conversation stopped after %d of %d cases", done, len(qs))
+		}
+		c.Set("conversation_cases", len(qs))
 
 		padMu.Lock()
 		lo, hi := math.MaxInt32, -1
